@@ -175,9 +175,22 @@ def run(rep, tier):
         for k in range(9):
             check_log(e, k)
     e.finish()
+    # E1 anchor: the compiled evaluators (with the real fused multiply-add) on exactly representable small integers
+    from e1 import HarnessSpec
+    from props.e1util import run_e1
+    names = ["poly1", "poly2", "poly3", "polyn4"] if tier == "quick" else ["poly1", "poly2", "poly3", "poly4", "poly5", "polyn4"]
+    specs = [HarnessSpec("c01::c01_exact_" + nm,
+                         "compiled code incl. fused multiply-add: for all integer coefficients |c|<=4 and integer |x|<=3 the result of %s::evaluate "
+                         "equals the integer value of sum c_i x^i exactly%s" % (nm, " (and the empty PolyN evaluates to 0)" if nm == "polyn4" else ""),
+                         ["<%s as Evaluate>::evaluate" % nm], {"coefficients": "integers in [-4,4]", "x": "integers in [-3,3]"},
+                         timeout_s=600 if tier == "quick" else 1800, mem_gb=14, role="eval-exactness") for nm in names]
+    run_e1(rep, specs)
 
 
 def replay(path):
+    if path.endswith(".rs"):
+        from props.e1util import replay_cmd
+        return replay_cmd(path)
     import json
     from engine import Native
     d = json.load(open(path))
